@@ -539,6 +539,13 @@ func (s *Server) blobUploadPut(repoStr, sessionID string) http.HandlerFunc {
 		}
 		err = bc.Close()
 		if err != nil {
+			if bc.Digest() != d {
+				// another request wrote to the session after the digest was verified
+				_ = bc.Cancel()
+				w.WriteHeader(http.StatusBadRequest)
+				_ = types.ErrRespJSON(w, types.ErrInfoBlobUploadInvalid("invalid digest, expected: "+bc.Digest().String()))
+				return
+			}
 			w.WriteHeader(http.StatusInternalServerError)
 			s.log.Error("failed to close blob upload", "err", err, "repo", repoStr, "sessionID", sessionID)
 			return
